@@ -44,9 +44,25 @@ class C17(Prop):
             yield f"recv handle {hexs(f + bytes(k))}", "request-padded"
         for k in range(0, 70):
             yield f"recv handle {hexs(bytes(k))}", "padding-only"
+        # sequences of padding changes and writes on ONE interface object (stale cached state)
+        for _ in range(400 if T else 80):
+            items = []
+            for _ in range(rng.randrange(2, 7)):
+                p = rng.choice([0, 1, 2, 3, 4, 7, 8, 16, 32, 64, 255, rng.randrange(256)])
+                n = rng.choice([0, 1, 5, 6, 7, 9, 16, rng.randrange(0, 70)])
+                items.append(f"{p}:{hexs(bytes((i * 5 + p) & 0xFF or 1 for i in range(n)))}")
+            yield "pad seq " + ",".join(items), "align-sequence"
 
     def impl(self, line):
         t = line.split(" ")
+        if t[0] == "pad" and t[1] == "seq":
+            log = []
+            intf = mk_intf(log)
+            for it in t[2].split(","):
+                p, h = it.split(":")
+                intf.write_padding = int(p)
+                intf.write(unhex(h))
+            return "ok " + ",".join(hexs(x) for x in log)
         if t[0] == "pad":
             self.intf.write_padding = int(t[2])
             self.log.clear()
@@ -60,6 +76,24 @@ class C17(Prop):
 
     def oracle(self, line, impl_out=None):
         t = line.split(" ")
+        if t[0] == "pad" and t[1] == "seq":
+            log = []
+            intf = mk_intf(log)
+            hist = []
+            for it in t[2].split(","):
+                p, h = it.split(":")
+                p, d = int(p), unhex(h)
+                hist.append(p)
+                intf.write_padding = p
+                intf.write(d)
+                out = log[-1]
+                k = len(out) - len(d)
+                ok = out[:len(d)] == d and out[len(d):] == bytes(max(k, 0)) and \
+                    ((p == 0 and k == 0) or (p > 0 and 0 <= k < p and len(out) % p == 0))
+                if not ok:
+                    return {"key": "align-sequence", "what": f"write of {len(d)} bytes with padding {p} after padding history {hist[:-1]}",
+                            "expected": "d ++ k zeros, k < p, p | len", "observed": f"len {len(out)} tail {hexs(out[len(d):])[:40]}"}
+            return None
         if t[0] == "pad":
             p, d = int(t[2]), unhex(t[3])
             log = []
